@@ -87,4 +87,59 @@ Definition G (X Y : list Z) : list Z :=
   let Zc := map P (transpose Q) in          (* Zc[i] = (Z_i, Z_{i+8}, ..., Z_{i+56}) *)
   xorb (concat (transpose Zc)) R.
 
+(* ---- 3.2 - 3.4 for one lane (p = 1, every call site of the crate): the memory is B[0] .. B[q-1] ---- *)
+
+Definition ZERO : list Z := repeat 0 128.
+Definition words (bs : bytes) : list Z := le_words 8 bs.            (* 1024 bytes -> 128 words *)
+Definition unwords (b : list Z) : bytes := flat_map (le_bytes 8) b.
+
+Fixpoint setb (B : list (list Z)) (j : nat) (b : list Z) : list (list Z) :=
+  match B, j with
+  | [], _ => []
+  | _ :: r, O => b :: r
+  | x :: r, S j' => x :: setb r j' b
+  end.
+Definition getb (B : list (list Z)) (j : Z) : list Z := nth (Z.to_nat j) B ZERO.
+
+Fixpoint zseq (a : Z) (n : nat) : list Z := match n with O => [] | S n' => a :: zseq (a + 1) n' end.
+
+(* 3.4.1.2: the block of 128 (J1 || J2) values with counter c for pass r, lane l, slice sl:
+   G(ZERO, G(ZERO, LE64(r) || LE64(l) || LE64(sl) || LE64(m') || LE64(t) || LE64(y) || LE64(c) || ZERO(968))) *)
+Definition address_block (r l sl m' t y c : Z) : list Z :=
+  G ZERO (G ZERO ([r; l; sl; m'; t; y; c] ++ repeat 0 121)).
+
+(* Argon2i (y = 1): always data-independent; Argon2id (y = 2): in the first two slices of the first pass *)
+Definition data_independent (y r sl : Z) : bool := (y =? 1) || ((y =? 2) && (r =? 0) && (sl <? 2)).
+
+(* the 64-bit value J1 || J2 (J1 = its 32 least significant bits) for position i of slice sl in pass r *)
+Definition J12 (y r sl i m' t : Z) (prev : list Z) : Z :=
+  if data_independent y r sl then nth (Z.to_nat (i mod 128)) (address_block r 0 sl m' t y (i / 128 + 1)) 0
+  else nth 0 prev 0.
+
+(* 3.4 for column j of the single lane in pass r:  B[j] = G(B[(j - 1) mod q], B[z])  (xor the old B[j] when r > 0),
+   l = J2 mod 1 = 0 being always the same lane *)
+Definition step (y t q r : Z) (B : list (list Z)) (j : Z) : list (list Z) :=
+  let seg := q / 4 in
+  let sl := j / seg in
+  let i := j mod seg in
+  let prev := getb B ((j - 1) mod q) in
+  let J1 := J12 y r sl i q t prev mod 2 ^ 32 in
+  let z := ref_pos seg r sl i J1 true in
+  let new := G prev (getb B z) in
+  setb B (Z.to_nat j) (if r =? 0 then new else xorb new (getb B j)).
+
+Definition pass (y t q : Z) (B : list (list Z)) (r : Z) : list (list Z) :=
+  let start := if r =? 0 then 2 else 0 in
+  fold_left (step y t q r) (zseq start (Z.to_nat (q - start))) B.
+
+(* Argon2 (version 0x13) with one lane: type y, t passes, m KiB, tag length T, password P, salt S, key K, data X *)
+Definition argon2 (y t m : Z) (T : nat) (P S K X : bytes) : bytes :=
+  let q := 4 * (m / 4) in
+  let h0 := H0 1 (Z.of_nat T) m t 0x13 y P S K X in
+  let B0 := words (Hprime 1024 (h0 ++ le_bytes 4 0 ++ le_bytes 4 0)) in
+  let B1 := words (Hprime 1024 (h0 ++ le_bytes 4 1 ++ le_bytes 4 0)) in
+  let B := B0 :: B1 :: repeat ZERO (Z.to_nat q - 2) in
+  let B := fold_left (pass y t q) (zseq 0 (Z.to_nat t)) B in
+  Hprime T (unwords (getb B (q - 1))).
+
 End Argon2Spec.
